@@ -300,6 +300,80 @@ let exhaustive_pairs acc ~props ~table_json ~path ~file ~(es : (string * string)
 let write_file path s = let oc = open_out_bin path in output_string oc s; close_out oc
 let read_file path = let ic = open_in_bin path in let n = in_channel_length ic in let s = really_input_string ic n in close_in ic; s
 
+(* ---- a block above 4 GiB (64-bit restart array), as a sparse file --------------------------
+   Not representable in the list-based model; the implementation is compared with the
+   specification directly.  Two entries with 2 GiB values (holes) push the entry area over
+   UINT32_MAX; eight small entries follow, each at its own restart point beyond the 4 GiB mark. *)
+let big_block_case acc =
+  let path = Filename.concat (Wr.tmpdir ()) (Printf.sprintf "rd_big_%d.mtbl" (Unix.getpid ())) in
+  let table_json () = JO [ "source", JS "independent encoder, sparse file"; "layout", JS "one uncompressed v2 data block: a->2GiB zeros, b->2GiB zeros, c0..c7 -> v0..v7; restart points at a and at every c_i; 64-bit restart array" ] in
+  let big = 0x80000000 in
+  let small = List.init 8 (fun i -> (Printf.sprintf "c%d" i, Printf.sprintf "v%d" i)) in
+  let ok = (try
+    let fd = Unix.openfile path [ Unix.O_RDWR; Unix.O_CREAT; Unix.O_TRUNC ] 0o600 in
+    let pos = ref 0 in
+    let put s = ignore (Unix.LargeFile.lseek fd (Int64.of_int !pos) Unix.SEEK_SET);
+      ignore (Unix.write_substring fd s 0 (String.length s)); pos := !pos + String.length s in
+    let skip n = pos := !pos + n in
+    (* sizes first *)
+    let ehdr k vlen = Enc.varint 0 ^ Enc.varint (String.length k) ^ Enc.varint vlen ^ k in
+    let e_a = ehdr "a" big and e_b = ehdr "b" big in
+    let entries_len = String.length e_a + big + String.length e_b + big
+                      + List.fold_left (fun a (k, v) -> a + String.length (ehdr k (String.length v)) + String.length v) 0 small in
+    let nr = 1 + List.length small in
+    let blen = entries_len + 8 * nr + 4 in
+    let hdr = Enc.varint blen ^ Enc.le 4 0 in
+    put hdr;
+    let base = !pos in
+    let restarts = ref [ 0 ] in
+    put e_a; skip big; put e_b; skip big;
+    List.iter (fun (k, v) -> restarts := (!pos - base) :: !restarts; put (ehdr k (String.length v)); put v) small;
+    List.iter (fun r -> put (Enc.le 8 r)) (List.rev !restarts);
+    put (Enc.le 4 nr);
+    let ibo = !pos in
+    let iraw = Enc.varint 0 ^ Enc.varint 2 ^ Enc.varint 1 ^ "c7" ^ Enc.varint 0 ^ Enc.le 4 0 ^ Enc.le 4 1 in
+    let ifr = Enc.frame ~version:2 iraw in
+    put ifr;
+    let fields = [ ibo; 8192; 0; 10; 1; ibo; String.length ifr; 18; 2 * big + 16 ] in
+    List.iter (fun f -> put (Enc.le 8 f)) fields;
+    put (String.make (512 - 72 - 4) '\000'); put (Enc.le 4 0x4D54424C);
+    Unix.close fd; true
+  with _ -> false) in
+  if not ok then bump acc "big_block_skipped(no sparse file)"
+  else begin
+    bump acc "big_block_64bit_restarts";
+    record acc ~key:"big_block" ~nontrivial:true ~klass:"big_block_64bit_restarts" (lazy (table_json ()));
+    (match with_child_acc acc (fun a ->
+       let r = c_reader_init path false false in
+       if r = 0n then fail a ~kind:"spec_violation" ~what:"[C11] reader does not open a well-formed table whose data block exceeds 4 GiB" (table_json ())
+       else begin
+         let src = c_reader_source r in
+         let expect what got exp =
+           if got <> exp then fail a ~kind:"spec_violation"
+               ~what:(Printf.sprintf "[C11] block above 4 GiB (64-bit restart array): %s returns %s, expected %s" what (show_e got) (show_e exp)) (table_json ()) in
+         List.iteri (fun i (k, v) ->
+           let g = impl_create src (Get k) in
+           expect ("get " ^ k) (fst (impl_step g Next)) (Some (k, v)); impl_destroy g;
+           (* seek from the start of the block, then continue in order *)
+           let it = impl_create src Iter in
+           ignore (impl_step it (Seek k));
+           expect ("seek " ^ k ^ "; next") (fst (impl_step it Next)) (Some (k, v));
+           expect ("seek " ^ k ^ "; next; next") (fst (impl_step it Next)) (if i + 1 < 8 then Some (List.nth small (i + 1)) else None);
+           (* backwards from there *)
+           ignore (impl_step it (Seek "c0"));
+           expect ("seek back to c0; next") (fst (impl_step it Next)) (Some (List.hd small));
+           impl_destroy it;
+           let p = impl_create src (Prefix "c") in
+           for _ = 1 to i do ignore (impl_step p Next) done;
+           expect (Printf.sprintf "get_prefix c, entry %d" i) (fst (impl_step p Next)) (Some (k, v)); impl_destroy p) small;
+         let g = impl_create src (Get "bb") in expect "get bb (absent)" (fst (impl_step g Next)) None; impl_destroy g;
+         c_reader_destroy r
+       end) with
+     | None -> ()
+     | Some sg -> fail acc ~kind:"spec_violation" ~what:(Printf.sprintf "[C11] the reader stopped (signal %d) on a well-formed table whose data block exceeds 4 GiB" sg) (table_json ()))
+  end;
+  (try Sys.remove path with _ -> ())
+
 let run ~tier ~seed ~only acc =
   let idx = ref 0 in
   let want () = cur_index := !idx; (match only with None -> true | Some i -> i = !idx) in
@@ -405,4 +479,6 @@ let run ~tier ~seed ~only acc =
       from_encoder st ~klass:"small_scope_exhaustive" lay es ~exhaustive:true
     end;
     incr idx
-  done
+  done;
+  if want () then big_block_case acc;
+  incr idx
